@@ -437,6 +437,15 @@ impl Recorder {
     fn stop(&self) -> Vec<(String, String)> { self.on.store(false, Ordering::SeqCst); self.events.lock().unwrap().clone() }
 }
 
+/// Makes the first mutation of the given kind whose path contains `needle` fail (injected I/O error).
+struct FailOnce { kind: &'static str, needle: String, done: AtomicBool }
+impl Probe for FailOnce {
+    fn on_event(&self, ev: &Event) -> bool {
+        if ev.kind == self.kind && ev.ns.contains(&self.needle) && !self.done.swap(true, Ordering::SeqCst) { return false }
+        true
+    }
+}
+
 fn coq_kind(k: &str) -> &'static str {
     match k { "fs-create-dir" => "KCreateDir", "fs-remove-dir" => "KRemoveDir", "fs-create-file" => "KCreateFile", "fs-write" => "KWrite",
               "fs-remove-file" => "KRemoveFile", "fs-rename" => "KRename", other => panic!("unknown fs event {other}") }
@@ -1004,6 +1013,73 @@ fn cut_scenario(out: &mut Out, it: &mut Interner, args: &Args, rng: &mut Rng) {
     }
 }
 
+// ---------------------------------------------------------------- candidate findings replayed on the real code
+
+fn tree_files(dir: &Path) -> Vec<String> {
+    walk(dir).into_iter().filter(|e| e.bytes.is_some()).map(|e| e.rel).collect()
+}
+
+/// Scripted replays of candidates the model points at; observations only (reported in stats.json).
+fn candidate_replays(args: &Args, tokio: &tokio::runtime::Runtime) -> Value {
+    let mut it = Interner::new();
+    let rc = RetCfg { min_nr: 5, min_secs: 1200, max_nr: 50, max_secs: 7200, archive: false };
+    let mut res = serde_json::Map::new();
+    let mut pubd = |tag: &str, els: Vec<GElem>, srv: &Server, it: &mut Interner| -> String { match srv.publish("alice", &els, it) { Ok(()) => format!("{tag}: accepted"), Err(e) => format!("{tag}: {e}") } };
+    // F11f: a write that failed after filling rsync/tmp-1 (here: an injected error at the first rename of a session
+    // reset); later the serial comes back to 1 after another reset: what was left in tmp-1 ends up in rsync/current
+    {
+        let dir = args.out.join("cand-f11f"); let _ = std::fs::remove_dir_all(&dir);
+        let mut srv = open_server(&dir.to_string_lossy(), "memory:9101", &rc, true, tokio);
+        srv.create_publisher("alice").unwrap();
+        let mut log = Vec::new();
+        log.push(pubd("publish x.cer, y.roa", vec![GElem::Pub { uri: format!("{RSYNC_BASE}alice/x.cer"), content: 9001, pad: 0 }, GElem::Pub { uri: format!("{RSYNC_BASE}alice/y.roa"), content: 9002, pad: 0 }], &srv, &mut it));
+        log.push(format!("update: {:?}", srv.manager(&rc).update_rrdp_if_needed().map(|_| ()).map_err(|e| e.to_string())));
+        set_probe(Some(Arc::new(FailOnce { kind: "fs-rename", needle: "/rsync/current".into(), done: AtomicBool::new(false) })));
+        log.push(format!("session reset with the rename of rsync/current failing: {:?}", srv.manager(&rc).rrdp_session_reset().map_err(|e| e.to_string().chars().take(90).collect::<String>())));
+        set_probe(None);
+        log.push(format!("left behind: {:?}", tree_files(&srv.repo_dir().join("rsync")).into_iter().filter(|p| p.starts_with("tmp-")).collect::<Vec<_>>()));
+        let view = srv.list("alice");
+        let yh = view.iter().find(|(u, _)| u.ends_with("y.roa")).map(|(_, h)| h.clone());
+        if let Some(h) = yh { log.push(pubd("withdraw y.roa", vec![GElem::Wdr { uri: format!("{RSYNC_BASE}alice/y.roa"), old: h }], &srv, &mut it)); }
+        log.push(format!("update: {:?}", srv.manager(&rc).update_rrdp_if_needed().map(|_| ()).map_err(|e| e.to_string())));
+        log.push(format!("session reset: {:?}", srv.manager(&rc).rrdp_session_reset().map_err(|e| e.to_string())));
+        let cur = tree_files(&srv.repo_dir().join("rsync").join("current"));
+        let details: Vec<String> = srv.details_all(&mut it).into_iter().map(|(u, _)| u).collect();
+        let stale = cur.iter().any(|p| p.ends_with("y.roa"));
+        res.insert("F11f".into(), json!({"log": log, "rsync_current": cur, "published": details, "withdrawn_object_served_by_rsync": stale}));
+    }
+    // F11e: two URIs that differ only in the case of the module name
+    {
+        let dir = args.out.join("cand-f11e"); let _ = std::fs::remove_dir_all(&dir);
+        let mut srv = open_server(&dir.to_string_lossy(), "memory:9102", &rc, true, tokio);
+        srv.create_publisher("alice").unwrap();
+        let mut log = Vec::new();
+        log.push(pubd("publish rsync://localhost/repo/alice/x.cer", vec![GElem::Pub { uri: "rsync://localhost/repo/alice/x.cer".into(), content: 9011, pad: 0 }], &srv, &mut it));
+        log.push(pubd("publish rsync://localhost/REPO/alice/x.cer", vec![GElem::Pub { uri: "rsync://localhost/REPO/alice/x.cer".into(), content: 9012, pad: 0 }], &srv, &mut it));
+        log.push(format!("update: {:?}", srv.manager(&rc).update_rrdp_if_needed().map(|_| ()).map_err(|e| e.to_string())));
+        let cur = tree_files(&srv.repo_dir().join("rsync").join("current"));
+        let details: Vec<String> = srv.details_all(&mut it).into_iter().map(|(u, _)| u).collect();
+        res.insert("F11e".into(), json!({"log": log, "rsync_current": cur, "published": details.clone(), "objects_in_snapshot": details.len(), "files_in_rsync": cur.len()}));
+    }
+    // an object URI that is a directory prefix of another object's URI
+    {
+        let dir = args.out.join("cand-f11h"); let _ = std::fs::remove_dir_all(&dir);
+        let mut srv = open_server(&dir.to_string_lossy(), "memory:9103", &rc, true, tokio);
+        srv.create_publisher("alice").unwrap();
+        let mut log = Vec::new();
+        log.push(pubd("publish alice/a.cer and alice/a.cer/b.roa", vec![GElem::Pub { uri: format!("{RSYNC_BASE}alice/a.cer"), content: 9021, pad: 0 }, GElem::Pub { uri: format!("{RSYNC_BASE}alice/a.cer/b.roa"), content: 9022, pad: 0 }], &srv, &mut it));
+        let r1 = srv.manager(&rc).update_rrdp_if_needed().map(|_| ()).map_err(|e| e.to_string().chars().take(160).collect::<String>());
+        log.push(format!("update: {r1:?}"));
+        log.push(pubd("publish alice/c.cer", vec![GElem::Pub { uri: format!("{RSYNC_BASE}alice/c.cer"), content: 9023, pad: 0 }], &srv, &mut it));
+        let r2 = srv.manager(&rc).update_rrdp_if_needed().map(|_| ()).map_err(|e| e.to_string().chars().take(160).collect::<String>());
+        log.push(format!("update: {r2:?}"));
+        let cur = tree_files(&srv.repo_dir().join("rsync").join("current"));
+        let st = srv.state_json();
+        res.insert("F11h".into(), json!({"log": log, "rsync_current": cur, "rrdp_serial": st["rrdp"]["serial"], "rsync_writes_fail": r1.is_err() && r2.is_err()}));
+    }
+    Value::Object(res)
+}
+
 // ---------------------------------------------------------------- main
 
 fn main() {
@@ -1061,6 +1137,18 @@ fn run(args: &Args) -> i32 {
         let panicked = f11b["log"].as_array().map(|a| a.iter().any(|x| x["result"].as_str().unwrap_or("").starts_with("panic"))).unwrap_or(false) || rc.is_none();
         if panicked { out.impl_failures.push(json!({"index": Value::Null, "class": {"kind": "panic", "max_nr_zero": true}, "what": "rrdp_delta_files_max_nr = 0: find_deltas_truncate_age panics (attempt to subtract with overflow) in a build with overflow checks", "log": f11b.clone()})); }
     }
+    let candidates = if args.get_u64("candidates", 0) == 1 { candidate_replays(args, &tokio) } else { Value::Null };
+    if !candidates.is_null() {
+        if candidates["F11f"]["withdrawn_object_served_by_rsync"] == json!(true) {
+            out.impl_failures.push(json!({"index": Value::Null, "class": {"kind": "candidate", "id": "F11f"}, "what": "rsync/tmp-<serial> left by a failed or interrupted write is reused when the serial recurs after a session reset: a withdrawn object is served by rsync", "replay": candidates["F11f"].clone()}));
+        }
+        if candidates["F11e"]["objects_in_snapshot"] != candidates["F11e"]["files_in_rsync"] {
+            out.impl_failures.push(json!({"index": Value::Null, "class": {"kind": "candidate", "id": "F11e"}, "what": "two URIs that differ only in the case of the module name are distinct objects in the RRDP snapshot and one file in the rsync tree", "replay": candidates["F11e"].clone()}));
+        }
+        if candidates["F11h"]["rsync_writes_fail"] == json!(true) {
+            out.impl_failures.push(json!({"index": Value::Null, "class": {"kind": "candidate", "id": "F11h"}, "what": "an accepted object URI that is a directory prefix of another accepted object URI makes every rsync write fail (file vs directory) while RRDP goes on", "replay": candidates["F11h"].clone()}));
+        }
+    }
     out.w.flush();
     let n_fail = out.impl_failures.len();
     write_json(&args.out.join("stats.json"), &json!({
@@ -1068,7 +1156,7 @@ fn run(args: &Args) -> i32 {
         "evaluations": out.w.total, "distinct_nontrivial": out.distinct.len(),
         "rule": "histories on real RepositoryManager instances with a disk repository directory: each history starts with a session reset and a publication that includes one large object (in 25 % of the histories every object is small so that the size rule of delta retention bites), then 11 (thorough 22) random requests: publish a valid delta of 1-4 elements for alice / bob / a/b (44 %), update_rrdp_if_needed (40 %), two publications before the next update (5 %), session reset (4 %), remove (4 %) / create (3 %) a publisher; host names re-spelled in 15 % of the elements; one retention configuration per history from {min_nr 0,1,5} x {max_nr 1,2,50} x {min_seconds 0,1,huge} x {max_seconds 0,1,huge} (quick: seeded sample of 14 + the defaults + three fixed ones incl. archive mode; thorough: all 81), histories with a one-second limit sleep once across it and keep delta ages away from it. Cases: one per update/reset transition (stored RepositoryContent before/after), one per repository write for the RRDP files and one for the rsync tree (directory tree before/after, parsed files, recorded mutation trace, simulated clients at every earlier serial of the session, get_publisher_details), and for EVERY cut index of one update a crash in a worker subprocess (tree after the crash) plus the next write by a fresh runtime (publish+update / session reset / write_repository in turn). Non-trivial = every file case and every transition that changes the state; distinct = distinct case terms",
         "case_kind_distribution": out.kinds, "config_distribution": cfg_hist, "op_distribution": out.stats,
-        "strict_max_nr": strict, "rsync_cuts": args.get_u64("rsynccut", 1) == 1, "f11b_replay": f11b,
+        "strict_max_nr": strict, "rsync_cuts": args.get_u64("rsynccut", 1) == 1, "f11b_replay": f11b, "candidate_replays": candidates,
         "samples": out.samples, "impl_failures": out.impl_failures,
     }));
     println!("c11: {} cases ({:?}) from {} histories; impl failures {}", out.w.total, out.kinds, hist, n_fail);
